@@ -164,6 +164,17 @@ pub struct FCase {
     content: Content,
     dos_time: u16,
     pos: u8,
+    /// producer identification (host system << 8 | version), any value: it must not influence decryption
+    #[serde(default)]
+    made_by: Option<u16>,
+    #[serde(default)]
+    dos_date: Option<u16>,
+    /// well-formed third-party extra records next to the entry (see genf::well_known_extras), e.g. an
+    /// extended-timestamp record whose time differs from the DOS time the Info-ZIP check byte is taken from
+    #[serde(default)]
+    wk: u8,
+    #[serde(default)]
+    version_needed: Option<u16>,
 }
 
 fn check_foreign(c: &FCase) -> Result<(), String> {
@@ -171,6 +182,23 @@ fn check_foreign(c: &FCase) -> Result<(), String> {
     e.enc = Enc::ZipCrypto { password: c.password.clone(), header: c.header.clone(), time_check: c.time_check };
     e.desc = if c.time_check && c.desc == Desc::None { Desc::Sig32 } else if !c.time_check { Desc::None } else { c.desc };
     e.dos_time = c.dos_time;
+    if let Some(m) = c.made_by {
+        e.made_by = m;
+    }
+    if let Some(d) = c.dos_date {
+        e.dos_date = d;
+    }
+    if let Some(v) = c.version_needed {
+        e.version_needed = v;
+    }
+    for (k, r) in crate::genf::well_known_extras(b"enc.dat", b"", c.wk).into_iter().enumerate() {
+        if (k + c.wk as usize) % 2 == 0 {
+            e.central_extra_before.push(r.clone());
+        } else {
+            e.central_extra_after.push(r.clone());
+        }
+        e.local_extra.push(r);
+    }
     let mut entries = vec![];
     for i in 0..c.pos % 3 {
         entries.push(EntrySpec::simple(format!("p{i}").as_bytes(), 8, Content::Text { seed: 3, len: 64 }));
@@ -186,6 +214,9 @@ fn check_foreign(c: &FCase) -> Result<(), String> {
 pub struct CheckByte {
     time_variant: bool,
     target: u8,
+    /// producer id of the entry (e.g. MS-DOS host, PKZIP 1.x version numbers)
+    #[serde(default)]
+    made_by: Option<u16>,
 }
 
 fn check_byte_family(c: &CheckByte) -> Result<(), String> {
@@ -211,6 +242,10 @@ fn check_byte_family(c: &CheckByte) -> Result<(), String> {
         e.desc = Desc::Sig32;
     }
     e.dos_time = dos_time;
+    if let Some(m) = c.made_by {
+        e.made_by = m;
+        e.version_needed = 10;
+    }
     let b = build::build(&ArchiveSpec::plain(vec![e])).map_err(|e| format!("harness: {e}"))?;
     let plain = content.expand();
     // what the wrong password makes of the check byte (independent computation)
@@ -313,13 +348,16 @@ pub fn run(ctx: &mut Ctx) {
         nf,
         &|| {
             let pw = || prop_oneof![1 => Just(vec![]), 3 => proptest::collection::vec(any::<u8>(), 1..16), 1 => proptest::collection::vec(any::<u8>(), 200..400)];
-            (pw(), pw(), proptest::collection::vec(any::<u8>(), 11), any::<bool>(), prop_oneof![Just(Desc::Sig32), Just(Desc::NoSig32), Just(Desc::Sig64)], prop_oneof![Just(0u16), Just(8), Just(12), Just(93)], content::content(20000), any::<u16>(), any::<u8>())
-                .prop_map(|(password, wrong, header, time_check, desc, method, content, dos_time, pos)| FCase { password, wrong, header, time_check, desc, method, content, dos_time, pos })
+            (pw(), pw(), proptest::collection::vec(any::<u8>(), 11), any::<bool>(), prop_oneof![Just(Desc::Sig32), Just(Desc::NoSig32), Just(Desc::Sig64)], prop_oneof![Just(0u16), Just(8), Just(12), Just(93)], content::content(20000), any::<u16>(), any::<u8>(),
+                (prop_oneof![1 => Just(None), 2 => crate::genf::made_by().prop_map(Some), 1 => prop_oneof![Just(10u16), Just(11), Just(19), Just(20), Just(0x0314), Just(0x000a)].prop_map(Some)], prop_oneof![1 => Just(None), 1 => any::<u16>().prop_map(Some)], prop_oneof![2 => Just(0u8), 1 => Just(4u8), 1 => any::<u8>()], prop_oneof![2 => Just(None), 1 => prop_oneof![Just(10u16), Just(20), Just(45), Just(63)].prop_map(Some)]))
+                .prop_map(|(password, wrong, header, time_check, desc, method, content, dos_time, pos, (made_by, dos_date, wk, version_needed))| FCase { password, wrong, header, time_check, desc, method, content, dos_time, pos, made_by, dos_date, wk, version_needed })
                 .boxed()
         },
         &|c: &FCase, info: &mut Info| {
             info.nontrivial = !c.content.is_empty() && !c.password.is_empty();
             info.label(if c.time_check { "infozip-time-check" } else { "crc-check" });
+            info.label_if(c.made_by.map(|m| m >> 8 == 0).unwrap_or(false), "made-by-dos");
+            info.label_if(c.wk & 4 != 0, "extended-timestamp-extra");
             match catch(|| check_foreign(c)) {
                 Ok(r) => Verdict::from_result(r),
                 Err(p) => Verdict::Fail(format!("PANIC: {p}")),
@@ -354,7 +392,7 @@ pub fn run(ctx: &mut Ctx) {
             }
         },
     );
-    ctx.enumerate::<CheckByte>("checkbyte", 512, &|i| CheckByte { time_variant: i >= 256, target: (i % 256) as u8 }, &|c: &CheckByte, info: &mut Info| {
+    ctx.enumerate::<CheckByte>("checkbyte", 512 * 4, &|i| CheckByte { time_variant: i % 512 >= 256, target: (i % 256) as u8, made_by: [None, Some(10u16), Some(0x0014), Some(0x0b17)][(i / 512) as usize] }, &|c: &CheckByte, info: &mut Info| {
         info.nontrivial = true;
         match catch(|| check_byte_family(c)) {
             Ok(r) => Verdict::from_result(r),
